@@ -130,6 +130,162 @@ def canonical_problem(text):
     return None
 
 
+def big_history(rng, maxl=4, judge='all'):
+    """An OBJECT HISTORY over BigNum registers: the same objects are observed (rendered, compared, divided, ... by
+    reference) and mutated in place (minus, op=, set_copy) again and again, never cloned or rebuilt - internal state
+    that survives one operation too long (a cached rendering, a memoised quotient, a sign flag) shows up here and
+    nowhere else.  -> case dict."""
+    nreg = rng.randint(2, 3)
+    pool = [rand_int(rng, rng.randint(1, maxl)) for _ in range(nreg)]
+    if rng.random() < 0.3:
+        pool[1] = pool[0] * rng.choice([1, -1, 1, 2])
+    vals = list(pool)
+    script = ' '.join('%s sto' % limbs_tok(v) for v in vals)
+    expect, ops = [], []
+    cap = 32 * 14
+    for _ in range(rng.randint(4, 16)):
+        i, j = rng.sample(range(nreg), 2)
+        a, b = vals[i], vals[j]
+        k = rng.choice(['out', 'out', 'div', 'div', 'rem', 'rem', 'add', 'sub', 'mul', 'eq', 'cmp', 'neg', 'ispos', 'tostr', 'gcd',
+                        'minus', 'minus', 'minus', 'addas', 'subas', 'mulas', 'divas', 'remas', 'setcopy'])
+        if k in ('div', 'rem', 'divas', 'remas') and b == 0:
+            k = 'out'
+        if k in ('mul', 'mulas') and a.bit_length() + b.bit_length() > cap:
+            k = 'out'
+        ops.append(k)
+        if k == 'out':
+            script += ' @%d out' % i
+            expect.append(exp_big(a))
+        elif k in ('div', 'rem', 'add', 'sub', 'mul'):
+            v = {'div': trunc_div, 'rem': trunc_rem, 'add': lambda x, y: x + y, 'sub': lambda x, y: x - y, 'mul': lambda x, y: x * y}[k](a, b)
+            script += ' @%d @%d b%s out' % (i, j, k)
+            expect.append(exp_big(v))
+        elif k == 'gcd':
+            g = math.gcd(a, b)
+            script += ' @%d @%d bgcd %s beq out' % (i, j, limbs_tok(g))
+            expect.append(lambda t: None)      # sign of the gcd is not specified; its magnitude is judged in C05's own gcd cases
+        elif k == 'eq':
+            script += ' @%d @%d beq out' % (i, j)
+            expect.append('b|%d' % (1 if a == b else 0))
+        elif k == 'cmp':
+            script += ' @%d @%d bcmp out' % (i, j)
+            expect.append('o|' + ('E' if a == b else ('L' if a < b else 'G')))
+        elif k == 'neg':
+            script += ' @%d bneg out' % i
+            expect.append(exp_big(-a))
+        elif k == 'ispos':
+            script += ' @%d bispos out' % i
+            expect.append('b|%d' % (1 if a >= 0 else 0))
+        elif k == 'tostr':
+            base = rng.choice([10, 10, 2, 16, 36, 7])
+            script += ' @%d btostr:%d out' % (i, base)
+            expect.append('s|' + to_base(a, base))
+        elif k == 'minus':
+            script += ' @%d bminus drop' % i
+            vals[i] = -a
+        elif k in ('addas', 'subas', 'mulas', 'divas', 'remas'):
+            v = {'divas': trunc_div, 'remas': trunc_rem, 'addas': lambda x, y: x + y, 'subas': lambda x, y: x - y, 'mulas': lambda x, y: x * y}[k](a, b)
+            script += ' @%d @%d b%s drop' % (i, j, k)
+            vals[i] = v
+        elif k == 'setcopy':
+            script += ' @%d @%d bsetcopy drop' % (i, j)
+            vals[i] = b
+    # final renderings of every register
+    for i in range(nreg):
+        script += ' @%d out' % i
+        expect.append(exp_big(vals[i]))
+    return {'script': script, 'expect': expect, 'tag': 'history', 'tags': ['object_history'] + sorted({'hist:' + o for o in ops}),
+            'desc': 'BigNum object history: ' + ' '.join(ops), 'trivial': False}
+
+
+def num_history(rng, maxl=2, judge='all', bitcap=320):
+    """Object history over Num registers (see big_history).  judge='cmp': only ==, partial_cmp results are judged (C07)."""
+    ignore = lambda t: None
+    nreg = rng.randint(2, 3)
+
+    def leaf():
+        r = rng.random()
+        if r < 0.08:
+            return 'nnan', None
+        if r < 0.5:
+            p, q = rng.randint(-12, 12), rng.randint(1, 12)
+        else:
+            p, q = rand_int(rng, maxl), rand_mag(rng, maxl) or 3
+        return '%s %s nfrombig' % (limbs_tok(p), limbs_tok(q)), frac(p, q)
+    regs = [leaf() for _ in range(nreg)]
+    if rng.random() < 0.5 and regs[0][1] is not None:
+        # an equal value reached by another construction (unreduced) - the pair the comparison must call equal
+        v = regs[0][1]
+        m = rng.choice([2, 3, -1, 7, 2 ** 32])
+        regs[1] = ('%s %s nfrombig' % (limbs_tok(v.numerator * m), limbs_tok(v.denominator * m)), v)
+    vals = [v for _, v in regs]
+    script = ' '.join('%s sto' % sc for sc, _ in regs)
+    expect, ops = [], []
+    big = lambda v: v is not None and (v.numerator.bit_length() > bitcap or v.denominator.bit_length() > bitcap)
+    for _ in range(rng.randint(4, 16)):
+        i, j = rng.sample(range(nreg), 2)
+        a, b = vals[i], vals[j]
+        k = rng.choice(['out', 'out', 'out', 'eq', 'eq', 'cmp', 'cmp', 'add', 'mul', 'neg', 'floor', 'ispos', 'isnan', 'tostr',
+                        'minus', 'minus', 'flip', 'addas', 'mulas', 'setcopy'])
+        if k in ('add', 'addas') and big(F.add(a, b)) or k in ('mul', 'mulas') and big(F.mul(a, b)):
+            k = 'out'
+        if k == 'eq' and (a is None or b is None):
+            k = 'cmp'
+        if k == 'floor' and (a is None or a < 0):
+            k = 'out'
+        ops.append(k)
+        full = judge == 'all'
+        if k == 'out':
+            script += ' @%d out' % i
+            expect.append(exp_num(a) if full else ignore)
+        elif k == 'tostr':
+            script += ' @%d ntostr out' % i
+            expect.append('s|' + fr_text(a) if full else ignore)
+        elif k == 'eq':
+            script += ' @%d @%d neq out' % (i, j)
+            expect.append('b|%d' % (1 if a == b else 0))
+        elif k == 'cmp':
+            script += ' @%d @%d ncmp out' % (i, j)
+            expect.append('o|' + ('N' if a is None or b is None else ('E' if a == b else ('L' if a < b else 'G'))))
+        elif k in ('add', 'mul'):
+            v = F.add(a, b) if k == 'add' else F.mul(a, b)
+            script += ' @%d @%d n%s out' % (i, j, k)
+            expect.append(exp_num(v) if full else ignore)
+        elif k == 'neg':
+            script += ' @%d nneg out' % i
+            expect.append(exp_num(F.neg(a)) if full else ignore)
+        elif k == 'floor':
+            script += ' @%d nfloor out' % i
+            expect.append(exp_big(a.numerator // a.denominator) if full else ignore)
+        elif k == 'ispos':
+            script += ' @%d nispos out' % i
+            expect.append('b|%d' % (1 if (a is not None and a >= 0) else 0) if full else ignore)
+        elif k == 'isnan':
+            script += ' @%d nisnan out' % i
+            expect.append('b|%d' % (1 if a is None else 0) if full else ignore)
+        elif k == 'minus':
+            script += ' @%d nminus drop' % i
+            vals[i] = F.neg(a)
+        elif k == 'flip':
+            script += ' @%d nflip drop' % i
+            vals[i] = F.flip(a)
+        elif k in ('addas', 'mulas'):
+            script += ' @%d @%d n%s drop' % (i, j, k)
+            vals[i] = F.add(a, b) if k == 'addas' else F.mul(a, b)
+        elif k == 'setcopy':
+            script += ' @%d @%d nsetcopy drop' % (i, j)
+            vals[i] = b
+    for i in range(nreg):
+        for jx in range(i + 1, nreg):
+            a, b = vals[i], vals[jx]
+            script += ' @%d @%d ncmp out' % (i, jx)
+            expect.append('o|' + ('N' if a is None or b is None else ('E' if a == b else ('L' if a < b else 'G'))))
+        script += ' @%d out' % i
+        expect.append(exp_num(vals[i]) if judge == 'all' else ignore)
+    return {'script': script, 'expect': expect, 'tag': 'history', 'tags': ['object_history'] + sorted({'hist:' + o for o in ops}),
+            'desc': 'Num object history: ' + ' '.join(ops), 'trivial': False}
+
+
 def run_hv_num(lines, binary=None):
     """-> list of output lines (one per input line) or raises Inconclusive."""
     data = ('\n'.join(lines) + '\n').encode('utf-8')
